@@ -201,6 +201,8 @@ static void dft_stage_init(
     else f->post_peak = num_taps / 2;
 
     dft_length = set_dft_length(num_taps, (int)min_dft_size, (int)large_dft_size);
+    while (dft_length < 32 * (lsx_is_power_of_2(L)? L : 1))
+      dft_length <<= 1;           /* Each of the L portions needs >= 32 points. */
     f->coefs = rdft_calloc((size_t)dft_length, sizeof_real);
     offset = dft_length - num_taps + 1;
     m = (1. / dft_length) * rdft_multiplier() * L * *multiplier;
